@@ -16,6 +16,7 @@ import time
 from . import common, lib_db, c06
 from .common import parallel_map
 from .lib_db import NAMES, VERS, TAGS
+from .lib_dbref import fallbacks
 
 RULE = ("cases = histories of 4-14 commands of the C06 generator by users A and B (separate cache directories), "
         "~12% of the mutating commands killed after their 1st-3rd Database mutation, ~8% cache-file deletions; after "
@@ -107,9 +108,10 @@ def gen_case(rng):
 # ---- oracles -------------------------------------------------------------------------------------------
 
 def d16_query_class(key, a, raw, flavor, loaded):
-    """class predicate of D16 for a query whose cache answer `a` differs from the file answer: it is a listing,
-    the querying process accepted the cache of some stack (only its native flavor loaded there), and the cache
-    answer is exactly the file answer computed with the other flavors of those stacks hidden"""
+    """class predicate of D16 (repaired in 9143b09; kept so that a regression is named) for a query whose cache
+    answer `a` differs from the file answer: it is a listing, the querying process holds only its native flavor
+    for some stack, and the cache answer is exactly the file answer computed with the other flavors of those
+    stacks hidden"""
     accepted = [si for si, fl in enumerate(loaded or []) if fl == [flavor]]
     if not accepted or not key.startswith("list/") or raw is None:
         return False
@@ -141,7 +143,7 @@ def check_case(ctx, case, steps, msteps):
         ctx.hist("cmd=%s/%s" % (cmd["op"], rec["out"]))
         fl = cmd.get("flavor", "Linux")
         for si, l in enumerate(rec.get("loaded") or []):
-            if l == [fl]:
+            if l == sorted(set(fallbacks(fl))):            # exactly the needed flavors: the cache files were accepted
                 nacc += 1
                 ctx.hist("stack load: accepted")
             else:
@@ -180,14 +182,16 @@ def run(ctx):
     cases = c06.corpus_cases("C07")
     ctx.hist("corpus", len(cases))
     evaluate(ctx, cases)
-    n = ctx.n(240, 8000)
+    n = ctx.n(1500, 12000)
     done = 0
-    soft = ctx.t0 + (85 if ctx.tier == "quick" and not ctx.escalated else 1e9)
+    soft = ctx.t0 + (70 if ctx.tier == "quick" and not ctx.escalated else 1e9)
     while done < n and not ctx.out_of_time() and time.time() < soft:
-        k = min(48, n - done)
+        k = min(96, n - done)
         evaluate(ctx, [gen_case(ctx.rng) for _ in range(k)])
         done += k
     _shrinker()[2](ctx)
+    if ctx.disagreements or any(not f.get("finding_class") for f in ctx.failures):
+        return      # the counts below are taken from the implementation's behaviour: on a tree that violates the property they measure the defect, not the generator
     if ctx.evaluations > 20 and ctx.distinct_nontrivial < ctx.evaluations * 0.3:
         raise common.InfraError("degenerate distribution: %d non-trivial of %d" % (ctx.distinct_nontrivial, ctx.evaluations))
     crashed = ctx.histogram.get("cmd=declare/Crashed", 0) + ctx.histogram.get("cmd=undeclare/Crashed", 0)
